@@ -54,7 +54,7 @@ func init() {
 					v = v2
 				}
 			}
-			o := v.Out
+			o := rejectionIsViolation(v.Out, c.Change.Render(), c.File)
 			if o.Violation != "" {
 				parts := strings.Split(c.Tag, "/")
 				o.FindingKey = "C05:" + o.FindingKey + "/" + parts[0] + "/imports=" + parts[1]
